@@ -44,11 +44,42 @@ def get_stmt_id_generator(statements):
     return UniqueNameGenerator({stmt.id for stmt in statements})
 
 
-def get_var_name_generator(statements):
+def get_names_in_ast_structure(ast):
+    """Return the names used by the control structure of *ast*: guards,
+    loop variables and loop bounds. (Lowering moves these out of the
+    statements.)"""
+    from dagrt.codegen.dag_ast import ForLoop, IfThen, IfThenElse
+    from dagrt.utils import get_variables
+
+    if isinstance(ast, IfThen):
+        result = set(get_variables(ast.condition))
+        children = (ast.then,)
+    elif isinstance(ast, IfThenElse):
+        result = set(get_variables(ast.condition))
+        children = (ast.then, ast.else_)
+    elif isinstance(ast, ForLoop):
+        result = ({ast.loop_var_name}
+                | get_variables(ast.lbound) | get_variables(ast.ubound))
+        children = (ast.body,)
+    elif isinstance(ast, Block):
+        result = set()
+        children = ast.children
+    else:
+        return set()
+
+    for child in children:
+        result |= get_names_in_ast_structure(child)
+
+    return result
+
+
+def get_var_name_generator(statements, phase_ast=None):
     existing_variables = set()
     for stmt in statements:
         existing_variables.update(stmt.get_written_variables())
         existing_variables.update(stmt.get_read_variables())
+    if phase_ast is not None:
+        existing_variables.update(get_names_in_ast_structure(phase_ast))
     return UniqueNameGenerator(existing_variables)
 
 
@@ -77,7 +108,7 @@ def apply_statement_rewriter(rewriter_cls, phase_ast):
     statements = list(get_statements_in_ast(phase_ast))
     rewriter = rewriter_cls(
             stmt_id_gen=get_stmt_id_generator(statements),
-            var_name_gen=get_var_name_generator(statements))
+            var_name_gen=get_var_name_generator(statements, phase_ast))
 
     return rewriter(phase_ast)
 
